@@ -1478,6 +1478,28 @@ fn c07_case(rep: &mut Report, w: &Watch, a: &Runtype, b: &Runtype, defs: &[Named
         // the frontend hands `never` to code generation; the emptiness decision itself is C05's
         rep.count("result_empty", 1);
         w.end();
+        // ... except where an independent reading says what T[K] is: a position of an inline list
+        if op == "indexed" {
+            if let Some(expected) = expected_list_index(a, b) {
+                let dm0 = defs_map(defs);
+                rep.count("list_index_reference_checked", 1);
+                for v in probe_values(a, b, &dm0).iter() {
+                    if *v == Value::Absent || matches!(v, Value::Tag(_)) {
+                        continue;
+                    }
+                    if let Ok(true) = rm::rt_open(&expected, &dm0, v) {
+                        rep.judged(1);
+                        rep.violation(
+                            &format!("indexed-access-into-a-list-means-something-else|loses-member|on-value|computed-never"),
+                            "meaning-preserved",
+                            format!("indexed of\n{}\nexpected (by position): {}\ncomputed: never\nvalue {} is a value of the expected type", case_show(&c), tgen::show(&expected), v.show()),
+                            replay.clone(),
+                        );
+                        break;
+                    }
+                }
+            }
+        }
         return;
     }
     let name = tgen::uuid("AnyName");
